@@ -323,6 +323,30 @@ func (a *Adv) DoubleSpendProbes() int {
 			}
 		}
 	}
+	// a whole transaction that spends something, listed a second time verbatim (same transaction ID; for v2 also with its
+	// proofs and signatures, which the ID does not cover, left as they are)
+	for ti, txn := range a.Honest.Transactions {
+		if len(txn.SiacoinInputs)+len(txn.SiafundInputs) == 0 {
+			continue
+		}
+		blk := CloneBlock(a.Honest)
+		blk.Transactions = append(blk.Transactions, CloneBlock(a.Honest).Transactions[ti])
+		if a.emit(blk, "repeat-transaction-verbatim/v1", "reject", nil, nil) {
+			n++
+		}
+		break
+	}
+	for ti, txn := range a.Honest.V2Transactions() {
+		if len(txn.SiacoinInputs)+len(txn.SiafundInputs) == 0 {
+			continue
+		}
+		blk := CloneBlock(a.Honest)
+		blk.V2.Transactions = append(blk.V2.Transactions, CloneBlock(a.Honest).V2.Transactions[ti])
+		if a.emit(blk, "repeat-transaction-verbatim/v2", "reject", nil, nil) {
+			n++
+		}
+		break
+	}
 	// an output created by an honest v2 transaction of this block, spent by an appended transaction as an ephemeral
 	// parent: once (control: accepted; for siafunds only below the height from which ephemeral siafund spends are
 	// refused) and listed twice by that one transaction (the second listing spends nothing new: rejected everywhere)
